@@ -17,7 +17,7 @@ const char *vf_rule =
 	"base = serial or parallel transmission of 1-3 magazines x 1-2 pages (subcodes 0, 01-79, clock style 0x1234, C5/C6 sometimes) over 2-3 cycles "
 	"with and without erase, rows from the C02 grammar, X/26 with character replacing triplets, X/27/0 and X/27/4, X/28/0, M/29/0, 8/30 format 1 "
 	"and 2; faults per base: EVERY single bit of every Hamming 8/4 byte and 24/18 triplet (exhaustive), every in-byte double error of the packet "
-	"address and designation bytes of every packet and of all eight header bytes (28 pairs per byte), two bit errors in every triplet of every X/26 packet (sampled pairs), a parity error in every text row (one to all 40 "
+	"address and designation bytes of every packet and of all eight header bytes (28 pairs per byte), two bit errors in every triplet of every X/26 packet and in every byte of every X/27/0 and 8/30 page link (sampled pairs), a parity error in every text row (one to all 40 "
 	"positions in turn), and sampled multi-byte bursts with dropped packets. Non-trivial: the base contains an enhancement or service packet and a "
 	"retransmission without erase; every fault run changes a byte the decoder consumes (counted per class in the histogram).";
 
@@ -73,6 +73,7 @@ static void on_event(vbi_event *e, void *) {
 struct Snap {
 	std::vector<std::pair<unsigned, std::string>> pages;	// key pgno << 16 | subno  ->  serialized fetches
 	std::vector<EvRec> log;
+	std::map<unsigned, std::vector<int>> links;		// key -> page numbers of the six navigation links (FLOF, initial page) at Level 2.5
 };
 
 static void ser_page(std::string &o, const vbi_page &pg) {
@@ -96,7 +97,7 @@ static void ser_page(std::string &o, const vbi_page &pg) {
 static void run_tx(const std::vector<Pkt> &tx, const std::vector<char> *drop, int fault_at, const uint8_t *fault_bytes, Snap &out,
 		   const std::vector<std::pair<int, const uint8_t *>> *multi = nullptr) {
 	vbi_decoder *dec = vbi_decoder_new();
-	out.pages.clear(); out.log.clear();
+	out.pages.clear(); out.log.clear(); out.links.clear();
 	g_log = &out.log;
 	vbi_event_handler_register(dec, VBI_EVENT_TTX_PAGE | VBI_EVENT_NETWORK | VBI_EVENT_NETWORK_ID | VBI_EVENT_LOCAL_TIME | VBI_EVENT_PROG_ID, on_event, nullptr);
 	double t = 1000.0;
@@ -119,7 +120,7 @@ static void run_tx(const std::vector<Pkt> &tx, const std::vector<char> *drop, in
 		std::string o;
 		for (int level : {VBI_WST_LEVEL_1p5, VBI_WST_LEVEL_2p5}) {
 			vbi_page pg; memset(&pg, 0, sizeof pg);
-			if (vbi_fetch_vt_page(dec, &pg, pgno[i], subno[i], (vbi_wst_level) level, 25, TRUE)) { ser_page(o, pg); vbi_unref_page(&pg); }
+			if (vbi_fetch_vt_page(dec, &pg, pgno[i], subno[i], (vbi_wst_level) level, 25, TRUE)) { ser_page(o, pg); if (level == VBI_WST_LEVEL_2p5) { auto &lv = out.links[(unsigned) pgno[i] << 16 | (unsigned) subno[i]]; for (int q = 0; q < 6; ++q) lv.push_back(pg.nav_link[q].pgno); } vbi_unref_page(&pg); }
 			else o += "<fetch failed>";
 			o += "|L|";
 		}
@@ -421,6 +422,34 @@ int vf_run_case(Src &s, Report &r) {
 				if (same_pages(got, dropOnly) || same_pages(got, dropLater) || same_pages(got, abandoned)) continue;
 				return r.fail("C03:uncorrectable-X/26-triplet-shown-as-data", "two bit errors in triplet %d (bits %u and %u): %s: the fetched pages equal neither the fault-free run, nor the run with the enhancement data cut at this triplet, nor a run without this packet (with or without the later X/26 packets), nor a run without this transmission of the page; against the cut packet: %s; against the run without this and the later X/26 packets: %s",
 					q, x1, x2, describe(i, fb).c_str(), first_page_diff(got, cand).c_str(), first_page_diff(got, dropLater).c_str());
+			}
+		}
+	}
+
+	// ---------- class 2c: uncorrectable Hamming 8/4 byte inside a page link (X/27/0-3 FLOF links, 8/30 initial page): the link is ignored ----------
+	// Accepted: any outcome in which no page is lost or gained and every navigation link of every page points where it points in the
+	// fault-free run, in the run without this packet, or nowhere. A link to a page number that no fault-free run shows is data made up
+	// from a transmission error.
+	for (int i = 0; i < n; ++i) {
+		if (txv[i].kind != K_X27 && txv[i].kind != K_830) continue;
+		if (txv[i].cls[3] != B_H8) continue;	// X/27/4 carries triplets
+		std::set<int> allowed; bool haveW = false; Snap without;
+		for (auto &kv : ref.links) for (int l : kv.second) allowed.insert(l);
+		for (int k = 3; k < 42; ++k) {
+			if (txv[i].cls[k] != B_H8) continue;
+			unsigned reps = runs > budget ? 1 : 2;
+			for (unsigned rep = 0; rep < reps; ++rep) {
+				unsigned b1 = s.pick(8), b2 = s.pick(7); if (b2 >= b1) ++b2;
+				memcpy(fb, txv[i].b, 42); fb[k] ^= (uint8_t) ((1u << b1) | (1u << b2));
+				run_tx(txv, nullptr, i, fb, got); ++runs;
+				r.cls(txv[i].kind == K_X27 ? "faults:double-bit-X/27-link-byte" : "faults:double-bit-8/30-byte");
+				if (same_pages(got, ref)) continue;
+				if (!haveW) { std::fill(drop.begin(), drop.end(), 0); drop[i] = 1; run_tx(txv, &drop, -1, nullptr, without); for (auto &kv : without.links) for (int l : kv.second) allowed.insert(l); haveW = true; }
+				if (same_pages(got, without)) continue;
+				if (got.pages.size() != ref.pages.size()) return r.fail("C03:uncorrectable-link-byte-changes-page-set", "two bit errors in byte %d: %s: %s", k, describe(i, fb).c_str(), first_page_diff(got, ref).c_str());
+				for (size_t q = 0; q < got.pages.size(); ++q) if (got.pages[q].first != ref.pages[q].first) return r.fail("C03:uncorrectable-link-byte-changes-page-set", "two bit errors in byte %d: %s: %s", k, describe(i, fb).c_str(), first_page_diff(got, ref).c_str());
+				for (auto &kv : got.links) for (size_t q = 0; q < kv.second.size(); ++q) if (!allowed.count(kv.second[q]) && !(kv.second[q] < 0x100 || kv.second[q] > 0x8FF || (kv.second[q] & 0xFF) == 0xFF))	/* (no page: nowhere) */
+					return r.fail("C03:uncorrectable-link-byte-shown-as-link", "two bit errors in byte %d: %s: page %x.%x navigation link %zu points to page %x, which no fault-free run of this transmission (with or without this packet) shows", k, describe(i, fb).c_str(), kv.first >> 16, kv.first & 0xFFFF, q, kv.second[q]);
 			}
 		}
 	}
